@@ -738,6 +738,33 @@ def r_pure(E):
                             f"{cls}.{fn.name}"))
     res.breakdown = {"methods_that_store_into_self.value": sorted(inplace_derived)}
     res.samples = [{"derived_in_place_methods": sorted(inplace_derived)}]
+    # `x.copy()` is summarised as an object with a buffer of its own (R-INPLACE, R-PURE and the model rules that un-share a
+    # series with .copy() rely on it): the value handed to the returned object is a copy of self.value, not self.value
+    from ..astutil import fully_expanded as _fx_cp, returned_expr as _rx_cp
+    for cls in ("ExplainableQuantity", "ExplainableHourlyQuantities"):
+        fn = next((f for f in pm.own_methods(cls) if f.name == "copy"), None) if cls in pm.classes else None
+        if fn is None:
+            continue
+        res.instances += 1
+        for r_ in [n for n in ast.walk(fn) if isinstance(n, ast.Return) and n.value is not None]:
+            v_ = _fx_cp(_rx_cp(r_, fn), fn)
+            # (built by a helper of the module: its returned expression, the caller's constants and its own defaults in place)
+            if isinstance(v_, ast.Call) and isinstance(v_.func, ast.Name) and v_.func.id not in CTOR_PARAMS:
+                from ..astutil import straightline_value as _slv_cp, fold_constant_tests as _fct_cp
+                hv_ = _slv_cp(v_, None, pm.any_helper_finder(pm.path_of(cls)))
+                if hv_ is not None:
+                    wrap_ = ast.Module(body=[ast.Expr(value=hv_)], type_ignores=[])
+                    _fct_cp(wrap_)
+                    v_ = wrap_.body[0].value if wrap_.body and isinstance(wrap_.body[0], ast.Expr) else hv_
+            if isinstance(v_, ast.Call):
+                a0 = v_.args[0] if v_.args else next((k.value for k in v_.keywords if k.arg == "value"), None)
+                if a0 is not None and norm(_fx_cp(a0, fn)) == "self.value":
+                    res.findings.append(Finding(
+                        "R-PURE", f"{cls}.copy shares the value",
+                        f"{cls}.copy() builds the duplicate on `self.value` itself: the copy and the original hold the same "
+                        f"{'frame' if cls.endswith('Quantities') else 'quantity'}, so an in-place operation on one "
+                        f"(`.to(unit)`, `.round(n)` store into it) changes the other — an operand does not keep its value",
+                        pm.path_of(cls), r_.lineno, f"{cls}.copy"))
     res.floor = 60
     return res
 
